@@ -780,14 +780,20 @@ Examples:
     collapse = {}
     #XXX: any vectorized way to do this?
     for i,j in pairs: #XXX: sorted(sorted(pair) for pair in pairs): # ordering?
-        found = False
-        for k,v in collapse.items():
-            if i in (k,) or i in v:
-                v.add(j); found = True; break
-            if j in (k,) or j in v:
-                v.add(i); found = True; break
-        if not found:
+        found = None
+        for k in list(collapse):
+            v = collapse[k]
+            if i in (k,) or i in v or j in (k,) or j in v:
+                if found is None: # add the pair to the group
+                    found = k
+                    v.update((i,j))
+                else: # the pair also joins another group: merge the groups
+                    collapse[found].add(k)
+                    collapse[found].update(collapse.pop(k))
+        if found is None:
+            found = i
             collapse[i] = set((j,))
+        collapse[found].discard(found) # the key is not a member of its own group
     return collapse
 
 
